@@ -113,6 +113,7 @@ type serCase struct {
 	N      int       `json:"n"`
 	Salt   int64     `json:"salt"`
 	Shape  int       `json:"shape"` // summ: 0 mixed shapes by salt, 1 numerator 1000x the denominator, 2 constant samples, 3 narrow samples on different scales
+	SameKey int      `json:"samekey"` // series: >0 = NumeratorHash == DenominatorHash, hash set serSameKeyHashSets[samekey-1]
 	Big    int       `json:"big"`   // series: >0 = one record in two stands for that many measurements (cells beyond 32 / 64 values)
 	Date   serDate   `json:"date"`
 	Dates  []serDate `json:"dates"`
@@ -180,6 +181,10 @@ type serNames struct {
 	tables [2][2]string
 	hashes map[string]string
 	bent   bool // use BentBuilderOptions' key names
+	// one key names the toolchain of every record: BuilderOptions.NumeratorHash == DenominatorHash
+	// (cmd/benchseries: "-numerator-hash ... (can be same as denominator-hash)"); a record then
+	// carries the hash of its own role under that key
+	samekey bool
 }
 
 func serIdx(tok string) int { // "u1" -> 0, "b2" -> 1
@@ -225,13 +230,29 @@ func (nm *serNames) options() *benchseries.BuilderOptions {
 		bo := benchseries.BentBuilderOptions()
 		bo.Table = "goarch,goos"
 		bo.Warn = func(string, ...interface{}) {}
+		if nm.samekey {
+			bo.DenominatorHash = bo.NumeratorHash
+		}
 		return bo
 	}
-	return &benchseries.BuilderOptions{
+	bo := &benchseries.BuilderOptions{
 		Filter: ".unit:/.*/", Series: "ser-stamp", Table: "goarch,goos", Experiment: "run", Compare: "role",
 		Numerator: "num", Denominator: "den", NumeratorHash: "nh", DenominatorHash: "dh", Ignore: "note",
 		Warn: func(string, ...interface{}) {},
 	}
+	if nm.samekey {
+		bo.NumeratorHash, bo.DenominatorHash = "commit", "commit"
+	}
+	return bo
+}
+
+// hash sets of the same-key cases: the toolchain that is the numerator of one series point is
+// the baseline of another (chained tip-vs-previous-tip comparisons; crossed)
+var serSameKeyHashSets = []map[string]string{
+	{"n1": "h1", "n2": "h2", "n3": "h3", "d1": "h0", "d2": "h1", "d3": "h2"},
+	{"n1": "b", "n2": "a", "n3": "c", "d1": "a", "d2": "b", "d3": "c"},
+	{"n1": "c1", "n2": "c2", "n3": "c3", "d1": "c3", "d2": "c3", "d3": "c1"},
+	{"n1": "abcdef0123456789", "n2": "0123456789abcdef", "n3": "ffff000011112222", "d1": "9876543219fedcba", "d2": "1111222233334444", "d3": "5555666677778888"},
 }
 
 // serResult builds the benchfmt.Result of one record (or of several records that
@@ -250,9 +271,18 @@ func (nm *serNames) result(c *serCase, recs []int, vals []float64, spell []int) 
 		{Key: bo.Series, Value: []byte(ser.Raws[spell[recs[0]]%len(ser.Raws)]), File: true},
 		{Key: bo.NumeratorHash, Value: []byte(nm.hash(r0.NumHash)), File: true},
 		{Key: bo.DenominatorHash, Value: []byte(nm.hash(r0.DenHash)), File: true},
+	}
+	if nm.samekey {
+		h := nm.hash(r0.NumHash)
+		if r0.Role == "den" {
+			h = nm.hash(r0.DenHash)
+		}
+		cfg = append(cfg[:3], benchfmt.Config{Key: bo.NumeratorHash, Value: []byte(h), File: true})
+	}
+	cfg = append(cfg, []benchfmt.Config{
 		{Key: "pkg", Value: []byte("example.com/p"), File: true},
 		{Key: "residue", Value: []byte(fmt.Sprint("r", recs[0]%2)), File: true},
-	}
+	}...)
 	t := nm.tables[serIdx(r0.Table)]
 	if t[0] != "" {
 		cfg = append(cfg, benchfmt.Config{Key: "goarch", Value: []byte(t[0]), File: true})
@@ -827,7 +857,11 @@ func serRunPerm(pl *serPlan, pi int, perm []int, style string, nfiles int) (res 
 	for k := 0; k < calls; k++ {
 		css, err, pv := serAll(bld, pl.how)
 		order := func() string {
-			return fmt.Sprintf("order=%v style=%s call=%d units=%v benches=%v hashes=%v", perm, style, k, nm.units, nm.bench, nm.hashes)
+			sk := ""
+			if nm.samekey {
+				sk = " NumeratorHash==DenominatorHash"
+			}
+			return fmt.Sprintf("order=%v style=%s call=%d units=%v benches=%v hashes=%v%s", perm, style, k, nm.units, nm.bench, nm.hashes, sk)
 		}
 		if pv != nil {
 			sig := "panic-in-AllComparisonSeries"
@@ -887,6 +921,10 @@ func serReplaySeries(c *serCase, caseNo int, dir string) Verdict {
 		return fail("badcase", "empty case")
 	}
 	pl := &serPlan{c: c, nm: serPick(caseNo), caseNo: caseNo, dir: dir, how: benchseries.DUPE_REPLACE}
+	if c.SameKey > 0 {
+		pl.nm.samekey = true
+		pl.nm.hashes = serSameKeyHashSets[(c.SameKey-1)%len(serSameKeyHashSets)]
+	}
 	if c.Policy == "combine" {
 		pl.how = benchseries.DUPE_COMBINE
 	}
